@@ -970,16 +970,19 @@ class Translator(DirectiveFactory):
                 if kind is END:
                     skip -= 1
 
-            if kind is START and not skip:
-                tag, attrs = data
-                if tag in self.ignore_tags or \
-                        isinstance(attrs.get(xml_lang), six.string_types):
-                    skip += 1
-                    continue
+            if kind is START:
+                if not skip:
+                    tag, attrs = data
+                    if tag in self.ignore_tags or \
+                            isinstance(attrs.get(xml_lang), six.string_types):
+                        skip += 1
 
+                # the code in the attributes of ignored elements is still
+                # searched for gettext calls, like the code in their content
                 for message in self._extract_attrs((kind, data, pos),
                                                    gettext_functions,
-                                                   search_text=search_text):
+                                                   search_text=search_text
+                                                               and not skip):
                     yield message
 
             elif not skip and search_text and kind is TEXT:
